@@ -24,6 +24,29 @@ def platform_error_adt(F):
 
 # --------------------------------------------------------------------------- ERR-MAP
 
+def rule_disc_origin(ctx, cfg, F):
+    R = ctx.rule("DISC-ORIGIN", "IpcError::Disconnected is made in one kind of place only: the conversion of the platform error, on its closed variant (ERR-MAP decides which edge). No other error -- "
+                 "a decode failure, a short payload, an I/O kind -- is turned into `the channel is gone`")
+    err = platform_error_adt(F)
+    n = 0
+    for f in sorted(F.fns.values(), key=lambda x: x.path):
+        for b in f.live_blocks():
+            if f.is_cleanup(b):
+                continue
+            for si, st in enumerate(f.stmts(b)):
+                made = st["s"] == "assign" and st["rv"]["r"] == "agg" and st["rv"]["kind"].get("adt") == "ipc::IpcError" and st["rv"]["kind"].get("variant") == "Disconnected"
+                made = made or (st["s"] == "assign" and st["rv"]["r"] == "use" and st["rv"]["a"][0].get("k") == "c" and st["rv"]["a"][0].get("pvariant") == "Disconnected" and "IpcError" in (st["rv"]["a"][0].get("t") or ""))
+                if not made:
+                    continue
+                n += 1
+                if f.impl_trait == "std::convert::From" and err is not None and f.argc >= 1 and f.local_ty(1) == err:
+                    R.ok("%s: Disconnected made from the platform error" % f.path, f.loc(b, si), cfg)
+                else:
+                    R.violate("%s:disconnected-made-elsewhere" % strip_generics(f.path), "%s constructs IpcError::Disconnected, but it does not convert the platform's closed-channel error: something else is reported as a vanished peer" % f.path,
+                              f.path, f.loc(b, si), config=cfg)
+    R.count("disconnected_sites[%s]" % cfg, n)
+
+
 def rule_try_conv(ctx, cfg, F):
     R = ctx.rule("TRY-CONV", "in every ipc-layer function that polls the platform receiver (try_recv / try_recv_timeout) the platform error reaches the caller through the conversion into TryRecvError "
                  "(the one that classifies would-block as Empty), never through the conversion into IpcError wrapped afterwards")
@@ -377,7 +400,7 @@ def rule_timeout_arm(ctx, cfg, F):
             R.violate("%s:poll-zero-not-eagain" % f.path, "the poll-timed-out edge does not construct Errno(EAGAIN): an expired wait would not be reported as Empty", f.path, f.loc(b), config=cfg)
         # poll < 0: the OS error as it is -- in particular never dressed up as would-block (an interrupted wait is not an expired one)
         lt = seen.get("lt", [])
-        lt_ok = bool(lt) and all(any(x[0] == "call" and x[1].endswith("UnixError::last") for x in facts) and
+        lt_ok = bool(lt) and all(any(x[0] == "call" and (x[1].endswith("UnixError::last") or x[1].endswith("io::Error::last_os_error")) for x in facts) and
                                  not any(x[0] == "ctor" and x[1].endswith("UnixError::Errno") and (EAGAIN in x[2] or EWOULDBLOCK in x[2]) for x in facts) for facts in lt)
         if lt_ok:
             R.ok("poll < 0 -> Errno(last), unchanged", f.loc(b), cfg)
